@@ -10,6 +10,7 @@ import RedisVerif.Props.C08
     HD <key> <n> <field>*           → eff=<b> delta <rv> | eff=0 none
     R <key> <rv>                    → ok      (remote delta)
     REC <key> <rv>                  → ok      (recovered checkpoint value)
+    FLUSH                           → ok      (FLUSHDB / FLUSHALL: `Shard.flush`, replication state untouched)
     SNAP                            → <n> (<key> <rv> ;)*   sorted by key code
 
   node level (a `ShardedNode` = all shards of one ReplicatedShardedState):
@@ -20,6 +21,7 @@ import RedisVerif.Props.C08
                                     entries come in the implementation's map iteration order (a
                                     relation: the line carries the implementation's choice); the shard
                                     given with each key is the routing function
+    NFLUSH                          → ok      FLUSHDB / FLUSHALL on every shard
     NSNAP                           → <n> (<key> <rv> ;)*   all shards, sorted by key code
 -/
 namespace RedisVerif.Driver.C08
@@ -52,6 +54,7 @@ def step (s : Shard) (line : String) : Shard × String :=
     match r.toNat?, c.toNat? with
     | some rid, some cz => (Shard.init rid (cz != 0), "ok")
     | _, _ => (s, "bad-op")
+  | ["FLUSH"] => (Shard.flush s, "ok")
   | ["SNAP"] =>
     (s, " ".intercalate (toString s.keys.length :: s.keys.map (fun p => s!"{showKey p.1} {showRV p.2} ;")))
   | _ =>
@@ -89,6 +92,7 @@ def nstep (nd : ShardedNode) (line : String) : ShardedNode × String :=
     match r.toNat?, c.toNat?, n.toNat? with
     | some rid, some cz, some n => (ShardedNode.init rid (cz != 0) n, "ok")
     | _, _, _ => (nd, "bad-op")
+  | ["NFLUSH"] => (nd.map Shard.flush, "ok")
   | ["NSNAP"] =>
     let all := (nd.flatMap (·.keys)).foldr insertKey []
     (nd, " ".intercalate (toString all.length :: all.map (fun p => s!"{showKey p.1} {showRV p.2} ;")))
@@ -113,7 +117,7 @@ def nstep (nd : ShardedNode) (line : String) : ShardedNode × String :=
 def stepAll (d : DState) (line : String) : DState × String :=
   match tokens line with
   | t :: _ =>
-    if t == "NN" || t == "NS" || t == "NRECOVER" || t == "NSNAP" then
+    if t == "NN" || t == "NS" || t == "NRECOVER" || t == "NSNAP" || t == "NFLUSH" then
       let r := nstep d.nd line
       ({ d with nd := r.1 }, r.2)
     else
